@@ -230,7 +230,7 @@ func c04Classify(c *fw.Ctx, id string, ec excClass, pos string, kind string, see
 // ---- fault scripts ----
 
 var c04FaultKinds = []string{"move", "split", "merge", "offline", "opening", "too-busy", "call-queue", "throttle", "abort-exc", "reset",
-	"server-down", "meta-move", "app-exception", "unknown-table"}
+	"server-down", "meta-move", "app-exception", "unknown-table", "split-meta-lag", "meta-row-missing"}
 
 type c04Script struct {
 	Seed   int64
@@ -341,6 +341,25 @@ func runC04Script(c *fw.Ctx, id string, sc c04Script) {
 			at := append(append([]byte{}, reg.Start...), 'm')
 			if reg.Contains(at) {
 				cl.SplitRegion(reg.Name, at, "", other)
+			}
+		case "split-meta-lag":
+			// hbase:meta lists only the first daughter for a while: lookups for keys
+			// of the second one are answered with a row that ends before the key
+			at := append(append([]byte{}, reg.Start...), 'm')
+			if reg.Contains(at) {
+				if d, err := cl.SplitRegion(reg.Name, at, "", other); err == nil {
+					name := d[1].Name
+					cl.SetInMeta(name, false)
+					time.AfterFunc(time.Duration(20+r.Intn(150))*time.Millisecond, func() { cl.SetInMeta(name, true) })
+				}
+			}
+		case "meta-row-missing":
+			// a region in transition: not served and its meta row absent for a while
+			// (not the table's first region: with no preceding row the table itself would look absent)
+			if name := reg.Name; len(reg.Start) > 0 {
+				cl.SetOffline(name, true)
+				cl.SetInMeta(name, false)
+				time.AfterFunc(time.Duration(20+r.Intn(150))*time.Millisecond, func() { cl.SetInMeta(name, true); cl.SetOffline(name, false) })
 			}
 		case "merge":
 			if len(regsNow) > 1 {
